@@ -18,6 +18,7 @@ type Expr struct {
 	Args  []*Expr
 	Bound []BoundVar
 	Pos   int
+	Trig  [][]*Expr
 }
 
 type BoundVar struct {
@@ -205,11 +206,33 @@ func (ps *parser) expr(minPrec int) (*Expr, error) {
 		if err := ps.expect("::"); err != nil {
 			return nil, err
 		}
+		// optional trigger groups: { e1, e2 } { e3 }
+		var trigs [][]*Expr
+		for ps.isOp("{") {
+			ps.next()
+			var grp []*Expr
+			for {
+				te, err := ps.expr(0)
+				if err != nil {
+					return nil, err
+				}
+				grp = append(grp, te)
+				if ps.isOp(",") {
+					ps.next()
+					continue
+				}
+				break
+			}
+			if err := ps.expect("}"); err != nil {
+				return nil, err
+			}
+			trigs = append(trigs, grp)
+		}
 		body, err := ps.expr(0)
 		if err != nil {
 			return nil, err
 		}
-		return &Expr{Op: q, Bound: bs, Args: []*Expr{body}}, nil
+		return &Expr{Op: q, Bound: bs, Args: []*Expr{body}, Trig: trigs}, nil
 	}
 	lhs, err := ps.unary()
 	if err != nil {
